@@ -20,12 +20,12 @@ theorem retainSpec_eq_filter (ans : Nat → Bool) (k : Nat) (l : List Char) :
 /-- Loop invariant: the buffer is `kept ++ S ++ rest` where `S` (`del` stale bytes) is what the
 deleted characters left behind; the loop ends with the kept text followed by nothing.  The
 panic index, if any, lies beyond the calls still to come. -/
-theorem retainLoop_spec (ans : Nat → Bool) (panicAt : Option Nat) (rest : List Char) :
+theorem retainLoop_spec (guard : Bool) (ans : Nat → Bool) (panicAt : Option Nat) (rest : List Char) :
     ∀ (kept : List Char) (S : Bytes) (k fuel len : Nat),
       rest.length ≤ fuel →
       len = (encode kept ++ S ++ encode rest).length →
       (∀ p, panicAt = some p → k + rest.length ≤ p) →
-      retainLoop ans panicAt len fuel ⟨encode kept ++ S ++ encode rest, (encode kept).length + S.length, S.length, k⟩
+      retainLoop guard ans panicAt len fuel ⟨encode kept ++ S ++ encode rest, (encode kept).length + S.length, S.length, k⟩
         = .ok ⟨encode (kept ++ retainSpec ans k rest), false, k + rest.length⟩ := by
   induction rest with
   | nil =>
@@ -106,19 +106,23 @@ theorem retainLoop_spec (ans : Nat → Bool) (panicAt : Option Nat) (rest : List
         simp [Nat.add_assoc, Nat.add_comm 1]
 
 /-- **`retain` with a closure that does not panic refines `filter`** (and the closure is called
-once per character, in order). -/
-theorem retain_spec (l : List Char) (ans : Nat → Bool) :
-    retain (encode l) ans none = .ok ⟨encode (retainSpec ans 0 l), false, l.length⟩ := by
-  have := retainLoop_spec ans none l [] [] 0 ((encode l).length + 1) (encode l).length
+once per character, in order) — with or without the unwind guard. -/
+theorem retainWith_spec (guard : Bool) (l : List Char) (ans : Nat → Bool) :
+    retainWith guard (encode l) ans none = .ok ⟨encode (retainSpec ans 0 l), false, l.length⟩ := by
+  have := retainLoop_spec guard ans none l [] [] 0 ((encode l).length + 1) (encode l).length
     (by have := length_le_encode l; omega) (by simp) (by intro p h; cases h)
-  simpa [retain] using this
+  simpa [retainWith] using this
+
+theorem retain_spec (l : List Char) (ans : Nat → Bool) :
+    retain (encode l) ans none = .ok ⟨encode (retainSpec ans 0 l), false, l.length⟩ :=
+  retainWith_spec _ l ans
 
 /-- a panic index beyond the last call changes nothing -/
-theorem retain_spec_late_panic (l : List Char) (ans : Nat → Bool) (p : Nat) (hp : l.length ≤ p) :
-    retain (encode l) ans (some p) = .ok ⟨encode (retainSpec ans 0 l), false, l.length⟩ := by
-  have := retainLoop_spec ans (some p) l [] [] 0 ((encode l).length + 1) (encode l).length
+theorem retainWith_spec_late_panic (guard : Bool) (l : List Char) (ans : Nat → Bool) (p : Nat) (hp : l.length ≤ p) :
+    retainWith guard (encode l) ans (some p) = .ok ⟨encode (retainSpec ans 0 l), false, l.length⟩ := by
+  have := retainLoop_spec guard ans (some p) l [] [] 0 ((encode l).length + 1) (encode l).length
     (by have := length_le_encode l; omega) (by simp) (by intro q h; cases h; simpa using hp)
-  simpa [retain] using this
+  simpa [retainWith] using this
 
 /-- When the closure panics before anything was deleted the bytes are untouched. -/
 theorem retainLoop_panic_nodel (ans : Nat → Bool) (p : Nat) (rest : List Char) :
@@ -126,7 +130,7 @@ theorem retainLoop_panic_nodel (ans : Nat → Bool) (p : Nat) (rest : List Char)
       rest.length ≤ fuel →
       len = (encode kept ++ encode rest).length →
       k ≤ p → p < k + rest.length → (∀ j, k ≤ j → j < p → ans j = true) →
-      retainLoop ans (some p) len fuel ⟨encode kept ++ encode rest, (encode kept).length, 0, k⟩
+      retainLoop false ans (some p) len fuel ⟨encode kept ++ encode rest, (encode kept).length, 0, k⟩
         = .ok ⟨encode kept ++ encode rest, true, p + 1⟩ := by
   induction rest with
   | nil => intro kept k fuel len _ _ h1 h2 _; simp at h2; omega
@@ -158,9 +162,96 @@ theorem retainLoop_panic_nodel (ans : Nat → Bool) (p : Nat) (rest : List Char)
 
 theorem retain_panic_nodel (l : List Char) (ans : Nat → Bool) (p : Nat) (hp : p < l.length)
     (hall : ∀ j, j < p → ans j = true) :
-    retain (encode l) ans (some p) = .ok ⟨encode l, true, p + 1⟩ := by
+    retainWith false (encode l) ans (some p) = .ok ⟨encode l, true, p + 1⟩ := by
   have := retainLoop_panic_nodel ans p l [] 0 ((encode l).length + 1) (encode l).length
     (by have := length_le_encode l; omega) (by simp) (Nat.zero_le _) (by omega) (by intro j _ h; exact hall j h)
-  simpa [retain] using this
+  simpa [retainWith] using this
+
+/-- With the unwind guard: whatever the closure answered before it panicked, the string is cut
+back to the characters kept so far. -/
+theorem retainLoop_panic_guarded (ans : Nat → Bool) (p : Nat) (rest : List Char) :
+    ∀ (kept : List Char) (S : Bytes) (k fuel len : Nat),
+      rest.length ≤ fuel →
+      len = (encode kept ++ S ++ encode rest).length →
+      k ≤ p → p < k + rest.length →
+      retainLoop true ans (some p) len fuel
+          ⟨encode kept ++ S ++ encode rest, (encode kept).length + S.length, S.length, k⟩
+        = .ok ⟨encode (kept ++ retainSpec ans k (rest.take (p - k))), true, p + 1⟩ := by
+  induction rest with
+  | nil => intro kept S k fuel len _ _ h1 h2; simp at h2; omega
+  | cons c r ih =>
+    intro kept S k fuel len hf hlen hkp hpk
+    match fuel, hf with
+    | f + 1, hf =>
+      have hpos := encChar_length_pos c
+      have hlen' : len = (encode kept).length + S.length + ((encChar c).length + (encode r).length) := by
+        rw [hlen]; simp only [encode_cons, List.length_append]
+      have hidx : (encode kept).length + S.length < len := by omega
+      have hdrop : (encode kept ++ S ++ encode (c :: r)).drop ((encode kept).length + S.length) = encChar c ++ encode r := by
+        rw [encode_cons]; exact List.drop_left' (by simp)
+      have hnot : ¬ (encode kept).length + S.length + (encChar c).length > len := by omega
+      simp only [retainLoop, hidx, if_true, hdrop, decodeHead_enc, hnot, if_false]
+      by_cases hk : k = p
+      · subst hk
+        simp only [if_true, Nat.add_sub_cancel, Nat.sub_self, List.take_zero, retainSpec, List.append_nil]
+        rw [List.append_assoc, List.take_left' rfl]
+      · have hne : ¬ (some p = some k) := by intro h; cases h; exact hk rfl
+        have hpk' : p - k = (p - (k + 1)) + 1 := by omega
+        simp only [hne, if_false]
+        by_cases ha : ans k = true
+        · simp only [ha, Bool.not_true, Bool.false_eq_true, if_false]
+          have hspec : retainSpec ans k ((c :: r).take (p - k)) = c :: retainSpec ans (k + 1) (r.take (p - (k + 1))) := by
+            rw [hpk']; simp [retainSpec, ha]
+          by_cases hS : S.length > 0
+          · simp only [hS, if_true]
+            have hbuf : encode kept ++ S ++ encode (c :: r) = encode kept ++ S ++ encChar c ++ encode r := by
+              rw [encode_cons]; simp [List.append_assoc]
+            have hsub : (encode kept).length + S.length - S.length = (encode kept).length := by omega
+            rw [hbuf, hsub, copyWithin_retain]
+            have hS' : ((S ++ encChar c).drop (encChar c).length).length = S.length := by simp
+            have hk' : encode kept ++ encChar c = encode (kept ++ [c]) := by simp [encode_append]
+            rw [hk']
+            have := ih (kept ++ [c]) ((S ++ encChar c).drop (encChar c).length) (k + 1) f len
+              (by simp at hf; omega)
+              (by rw [hlen', ← hk']; simp only [List.length_append, hS']; omega)
+              (by omega) (by simp at hpk; omega)
+            rw [hS'] at this
+            have hi : (encode (kept ++ [c])).length + S.length = (encode kept).length + S.length + (encChar c).length := by
+              rw [← hk', List.length_append]; omega
+            rw [hi] at this
+            rw [this, hspec]
+            simp
+          · have hS0 : S = [] := List.eq_nil_of_length_eq_zero (by omega)
+            subst hS0
+            simp only [List.length_nil, Nat.lt_irrefl, if_false, gt_iff_lt]
+            have hbuf : encode kept ++ [] ++ encode (c :: r) = encode (kept ++ [c]) ++ [] ++ encode r := by
+              simp [encode_append]
+            have := ih (kept ++ [c]) [] (k + 1) f len (by simp at hf; omega)
+              (by rw [hlen, hbuf]) (by omega) (by simp at hpk; omega)
+            have hi : (encode (kept ++ [c])).length + ([] : Bytes).length = (encode kept).length + 0 + (encChar c).length := by
+              simp [encode_append]
+            rw [hi] at this
+            rw [hbuf]
+            simp only [List.length_nil, Nat.add_zero] at this ⊢
+            rw [this, hspec]
+            simp
+        · have ha' : ans k = false := by simpa using ha
+          simp only [ha', Bool.not_false, if_true]
+          have hspec : retainSpec ans k ((c :: r).take (p - k)) = retainSpec ans (k + 1) (r.take (p - (k + 1))) := by
+            rw [hpk']; simp [retainSpec, ha']
+          have hbuf : encode kept ++ S ++ encode (c :: r) = encode kept ++ (S ++ encChar c) ++ encode r := by
+            rw [encode_cons]; simp [List.append_assoc]
+          have := ih kept (S ++ encChar c) (k + 1) f len (by simp at hf; omega)
+            (by rw [hlen, hbuf]) (by omega) (by simp at hpk; omega)
+          simp only [List.length_append] at this
+          rw [hbuf]
+          simp only [← Nat.add_assoc] at this ⊢
+          rw [this, hspec]
+
+theorem retain_panic_guarded (l : List Char) (ans : Nat → Bool) (p : Nat) (hp : p < l.length) :
+    retainWith true (encode l) ans (some p) = .ok ⟨encode (retainSpec ans 0 (l.take p)), true, p + 1⟩ := by
+  have := retainLoop_panic_guarded ans p l [] [] 0 ((encode l).length + 1) (encode l).length
+    (by have := length_le_encode l; omega) (by simp) (Nat.zero_le _) (by omega)
+  simpa [retainWith] using this
 
 end Bump.Str
